@@ -15,7 +15,8 @@ Fixpoint mrefs_all (cid : nat) (toks : list ctoken) : list (option Z * arg) :=
   | _ => []
   end.
 
-Definition all_valid (ds : list directive) : Prop := Forall (fun d => valid_directive d = true) ds.
+(* valid_impl = valid_directive minus the alternate form of %m (D15, see FmtCDir) *)
+Definition all_valid (ds : list directive) : Prop := Forall (fun d => valid_impl d = true) ds.
 
 Lemma raise_error_pct : forall (A : Type) r, exists p, @raise_error A (37%N :: r) = Err (EError p) /\ p <> [].
 Proof.
@@ -51,8 +52,6 @@ Proof.
       left. reflexivity.
     + cbn [tok_ok] in Ht. contradiction.
 Qed.
-
-Lemma run_items_warn_irrelevant : True. Proof. exact I. Qed.
 
 (* ------------------------------------------------------------------ *)
 (* model references vs specification references                         *)
